@@ -17,9 +17,9 @@ def text(name):
     """fixture text; 'name~-OD1-OD2@25' is the fixture `name` without the atoms OD1 and OD2 of residue 25
     (an incompletely modelled residue)"""
     if name not in _TXT:
-        if '#' in name:
-            # 'name#41-43': only the residues numbered 41..43 of the fixture (a fragment), closed by a TER record
-            base, rng = name.split('#', 1)
+        if ':' in name:
+            # 'name:41-43': only the residues numbered 41..43 of the fixture (a fragment), closed by a TER record
+            base, rng = name.split(':', 1)
             lo, hi = [int(x) for x in rng.split('-')]
             _TXT[name] = '\n'.join(l for l in text(base).split('\n') if l[:6] in ('ATOM  ', 'HETATM') and lo <= int(l[22:26]) <= hi) + '\nTER   \n'
         elif '~' in name:
